@@ -4,6 +4,9 @@ through the mutation lab against all claimed quick checks; write the detection m
 import json, subprocess, sys, os, glob
 IDS = ["C01","C02","C04","C05","C06","C07","C08","C09","C10","C11","C13","C14","C15","C16","C17","C18"]
 seeded = "--seeded" in sys.argv
+# --expected-only: re-run only the checks of the properties a change is expected to break (no test
+# suite) and merge the verdicts into the existing row
+expected_only = "--expected-only" in sys.argv
 only = [a for a in sys.argv[1:] if not a.startswith("--")]
 if seeded:
     items = []
@@ -21,8 +24,19 @@ except Exception:
 for it in items:
     if only and it["name"] not in only:
         continue
-    r = subprocess.run(["/verif/tools/mutlab.sh", "run", it["patch"], "--tests"] + IDS, capture_output=True, text=True)
-    res = {"tests": None, "checks": {}, "signatures": {}}
+    if expected_only:
+        r = subprocess.run(["/verif/tools/mutlab.sh", "run", it["patch"]] + it["expected"], capture_output=True, text=True)
+        try:
+            res = json.load(open(out)).get(it["name"]) or {"tests": None, "checks": {}, "signatures": {}}
+        except Exception:
+            res = {"tests": None, "checks": {}, "signatures": {}}
+        for k in it["expected"]:
+            res["signatures"].pop(k, None)
+        res["expected_rerun_at"] = subprocess.run(["git", "-C", "/verif", "rev-parse", "--short", "HEAD"], capture_output=True, text=True).stdout.strip()
+    else:
+        r = subprocess.run(["/verif/tools/mutlab.sh", "run", it["patch"], "--tests"] + IDS, capture_output=True, text=True)
+        res = {"tests": None, "checks": {}, "signatures": {}}
+        res["full_row_at"] = subprocess.run(["git", "-C", "/verif", "rev-parse", "--short", "HEAD"], capture_output=True, text=True).stdout.strip()
     for line in r.stdout.splitlines():
         parts = line.split(" ", 2)
         if parts[0] == "TESTS":
@@ -33,7 +47,7 @@ for it in items:
                 res["signatures"][parts[0]] = parts[2]
         else:
             res.setdefault("other", []).append(line)
-    caught = [k for k, v in res["checks"].items() if v == 1]
+    caught = sorted(k for k, v in res["checks"].items() if v == 1)
     broken = [k for k, v in res["checks"].items() if v not in (0, 1)]
     res["caught_by"] = caught
     res["harness_errors"] = broken
